@@ -8,6 +8,7 @@ from ..lock import LockSets
 from ..core import key
 
 FRONTEND = 'nfc.clf.ContactlessFrontend'
+LEVEL = 'proof'
 EXPLANATION = (
     'Lexical lock-set analysis (E5) over every function and closure of ContactlessFrontend: '
     'each syntactic use of self.device is classified (driver call, call through a local alias, '
